@@ -187,8 +187,15 @@ def run_config(arg):
                     events.append({"e": "read", "t": "other"})
                     fails.append({"kind": kind, "path": pk, "kw": kw, "value": repr(expect[1])[:200] if expect else None, "got": repr(got)[:200]})
 
-            mtime_event()
-            read_event(None)
+            if not mounted and c0 == 0:
+                # something else (another store, another tool) left content at the path before the first write
+                with open(p, "wb") as fh:
+                    fh.write(b"left over by somebody else\n")
+                events.append({"e": "regwrite"})
+                mtime_event()
+            else:
+                mtime_event()
+                read_event(None)
             for v in vals:
                 n += 1
                 if mounted:
@@ -226,6 +233,50 @@ def run_config(arg):
                 read_event(None)
             traces.append({"events": [F.norm_ev(e) for e in events]})
     return {"traces": traces, "fails": fails, "values": n, "config": [kind, pk, kw, dom]}
+
+
+def siblings_concurrent(arg):
+    """File stores whose paths differ only in the last suffix (report.json / report.txt / report.pkl), written and read
+    back by uberjob's worker threads at the same time under the deterministic scheduler: every store returns its own value."""
+    seed, pathkind, stratspec = arg
+    import uberjob
+    from uberjob import stores as S
+
+    from .. import detsched, engine_exec as E
+
+    rng = random.Random(seed)
+    strat = E.make_strategy(stratspec, rng)
+    files = detsched.ENGINE_FILES + ("uberjob/stores/_file_store.py",)
+    sched = detsched.Scheduler(strat, preempt_files=files, opcode=False, step_budget=400000)
+    res = {"fails": [], "preemptions": 0}
+    with common.scratch("vf-c12s-") as d:
+        mk = (lambda n: pathlib.Path(os.path.join(d, n))) if pathkind == "pathlib" else (lambda n: os.path.join(d, n))
+        stores = [S.JsonFileStore(mk("report.json")), S.TextFileStore(mk("report.txt")), S.PickleFileStore(mk("report.pkl")), S.BinaryFileStore(mk("report.bin"))]
+        values = [{"owner": "json"}, "owner text\n", ("owner", "pickle"), b"owner bin"]
+
+        def body():
+            plan = uberjob.Plan()
+            reg = uberjob.Registry()
+            outs = []
+            for i in range(len(stores)):
+                c = plan.call(lambda i=i: values[i])
+                reg.add(c, stores[i])
+                outs.append(c)
+            return uberjob.run(plan, registry=reg, output=outs, max_workers=len(stores), progress=None, scheduler=rng.choice([None, "random"]))
+
+        out = sched.run(body)
+        res["preemptions"] = sched.preemptions
+        if out["dead"]:
+            res["_poisoned"] = True
+        if out["outcome"] != "returned":
+            res["fails"].append({"what": "run_failed", "detail": (out["outcome"], repr(out["exc"])[:300])})
+            return res
+        for i, st in enumerate(stores):
+            if not strict_eq(out["value"][i], values[i]):
+                res["fails"].append({"what": "read_back_other_value", "detail": f"{st!r} returned {out['value'][i]!r:.120}, wrote {values[i]!r:.120}"})
+            elif st.get_modified_time() is None:
+                res["fails"].append({"what": "mtime_none_after_write", "detail": repr(st)})
+    return res
 
 
 def mounted_concurrent(arg):
